@@ -266,6 +266,50 @@ func fileCycleCase(i int) *sem.Case {
 	return c
 }
 
+// sameStemCase: referenced files whose paths are equal up to the last dot-suffix (item.json / item.yaml,
+// address.v1 / address.v2 found through --resolve-extension): each reference must reach its own document.
+func sameStemCase(i int) *sem.Case {
+	a := &sg.Schema{Types: []string{"object"}, Props: []sg.Prop{{Name: "id", S: &sg.Schema{Types: []string{"integer"}, Min: sg.Fp(1)}}}, Required: []string{"id"}}
+	b := &sg.Schema{Types: []string{"object"}, Props: []sg.Prop{{Name: "name", S: &sg.Schema{Types: []string{"string"}, MinLen: 2}}}, Required: []string{"name"}}
+	type variant struct {
+		refA, fileA, refB, fileB string
+		args                     []string
+	}
+	v := []variant{
+		{"shapes/item.json", "shapes/item.json", "shapes/item.yaml", "shapes/item.yaml", nil},
+		{"shapes/item.yaml", "shapes/item.yaml", "shapes/item.json", "shapes/item.json", nil},
+		{"defs/address.v1", "defs/address.v1.json", "defs/address.v2", "defs/address.v2.json", []string{"--resolve-extension", ".json"}},
+		{"defs/address", "defs/address.json", "defs/address.v1", "defs/address.v1.json", []string{"--resolve-extension", ".json"}},
+		{"defs/part.a.json", "defs/part.a.json", "defs/part.b.json", "defs/part.b.json", nil},
+	}[i%5]
+	root := &sg.Schema{Types: []string{"object"}, Props: []sg.Prop{{Name: "first", S: &sg.Schema{Ref: v.refA, Target: a}}, {Name: "second", S: &sg.Schema{Ref: v.refB, Target: b}}}}
+	if (i/5)%2 == 1 {
+		// the other generation order
+		root.Props = []sg.Prop{{Name: "zfirst", S: &sg.Schema{Ref: v.refA, Target: a}}, {Name: "asecond", S: &sg.Schema{Ref: v.refB, Target: b}}}
+	}
+	data := func(s *sg.Schema, file string) []byte {
+		if strings.HasSuffix(file, ".yaml") {
+			return sg.ToYAML(s.ToJSON(), sg.YAMLBlock)
+		}
+		return jsonx.MarshalIndent(s.ToJSON())
+	}
+	c := &sem.Case{Root: root, Sig: fmt.Sprintf("same-stem/%d", i%10), NoAuto: true, Args: v.args,
+		Extra: []batch.File{{Path: v.fileA, Data: data(a, v.fileA)}, {Path: v.fileB, Data: data(b, v.fileB)}}}
+	if v.args != nil {
+		c.RootType = "Root" // --resolve-extension .json trims the extension of root.json as well
+	}
+	ka, kb := root.Props[0].Name, root.Props[1].Name
+	okA, okB := jsonx.Obj{{K: "id", V: jsonx.N(7)}}, jsonx.Obj{{K: "name", V: "bolt"}}
+	for _, d := range []jsonx.Obj{
+		{{K: ka, V: okA}, {K: kb, V: okB}}, {{K: ka, V: okA}}, {{K: kb, V: okB}},
+		{{K: ka, V: okB}}, {{K: kb, V: okA}}, {{K: ka, V: jsonx.Obj{{K: "id", V: jsonx.N(0)}}}}, {{K: kb, V: jsonx.Obj{{K: "name", V: "x"}}}},
+		{{K: ka, V: jsonx.Obj{}}}, {{K: kb, V: jsonx.Obj{}}},
+	} {
+		c.Docs = append(c.Docs, docgen.Doc{V: d, Class: "deep", Label: "same-stem"})
+	}
+	return c
+}
+
 func c10(ctx *Ctx) (*Outcome, error) {
 	n := ctx.N(300, 5000)
 	var cases []*sem.Case
@@ -305,6 +349,9 @@ func c10(ctx *Ctx) (*Outcome, error) {
 	for i := 0; i < ctx.N(16, 32); i++ {
 		cases = append(cases, fileCycleCase(i))
 	}
+	for i := 0; i < ctx.N(10, 20); i++ {
+		cases = append(cases, sameStemCase(i))
+	}
 	// pinned witness: root self reference "#" is generated as interface{} (recorded finding root-self-ref-untyped)
 	{
 		root := &sg.Schema{Types: []string{"object"}, Props: []sg.Prop{{Name: "value", S: &sg.Schema{Types: []string{"integer"}, Max: sg.Fp(9)}}}}
@@ -340,7 +387,7 @@ func c10(ctx *Ctx) (*Outcome, error) {
 		// recursion through files: every spelling of the root file must be generated, and generated as code that builds
 		for _, c := range cases {
 			p := sem.ProgramOf(c)
-			if p == nil || !strings.HasPrefix(c.Sig, "file-cycle/") || p.Proc.TimedOut {
+			if p == nil || !(strings.HasPrefix(c.Sig, "file-cycle/") || strings.HasPrefix(c.Sig, "same-stem/")) || p.Proc.TimedOut {
 				continue
 			}
 			cycleRuns++
